@@ -89,7 +89,16 @@ func genEntries(r *verifrt.Rand, n int) []verifref.Entry {
 }
 
 func genMeta(r *verifrt.Rand) string {
-	switch r.Intn(8) {
+	switch r.Intn(10) {
+	case 8, 9:
+		// metadata close to the cap of 512 bytes (a long program path): the
+		// header then extends beyond 512 bytes
+		m := stackMeta(r.Intn(100))
+		pad := 470 + r.Intn(43) - len(m)
+		if pad < 10 {
+			return m
+		}
+		return "LongProgramPath: " + strings.Repeat("p", pad-18) + "\n" + m
 	case 5:
 		// blank lines are skipped wherever they stand: keys follow them
 		return "First: 1\n\nAfterBlank: 2\n\n\nLast: 3\n"
